@@ -45,7 +45,9 @@ TRUSTED = ["harness/c12.py copybook printer (spelling choices) - a wrong printer
 #              odo=[lo, hi, dep]|None, redef=str|None)
 
 NAMES = ["CUST-ID", "ACCT-NO", "AMT-1", "AMT-2", "FLD-A", "FLD-B", "KEY-X", "QTY", "RATE", "ZIP-4", "LAST-NM", "FIRST-NM",
-         "ITEM-1", "ITEM-2", "TBL-A", "TBL-B", "GRP-A", "GRP-B", "GRP-C", "HDR", "TRL", "WS-TOTAL", "N1", "N2", "X-9", "Y2K-DT"]
+         "ITEM-1", "ITEM-2", "TBL-A", "TBL-B", "GRP-A", "GRP-B", "GRP-C", "HDR", "TRL", "WS-TOTAL", "N1", "N2", "X-9", "Y2K-DT",
+         # USAGE words and PIC inside and at the end of a name (the decoder's second parse reads the whole entry text)
+         "EMP-COMPANY", "WS-COMP-DT", "TOT-BINARY-CT", "USE-DISPLAY", "ELEM-PIC", "N-COMP-3", "YTD-PACKED-DECIMAL"]
 PICS_ALNUM = ["X", "X(3)", "XX", "X(10)", "A(4)", "XXX", "X(01)"]
 PICS_NUM = ["9", "99", "9(3)", "S9(4)", "S9(5)V99", "9(2)V9(2)", "S999", "9(7)", "S9(9)", "99V9"]
 PICS_EDIT = ["ZZ9", "Z(3)9.99", "$ZZ9", "-9(3)", "9(3).99", "ZZ,ZZ9"]
